@@ -362,6 +362,7 @@ struct World {
     scen: Scenario,
     base: Instant,
     logging: Cell<bool>,
+    batch_seen: Cell<bool>,
 }
 
 struct DropGuard {
@@ -849,6 +850,7 @@ pub fn run_scenario(scen: Scenario) -> Vec<String> {
         scen,
         base: Instant::now(),
         logging: Cell::new(true),
+        batch_seen: Cell::new(false),
     });
     {
         let wk = Rc::downgrade(&w);
@@ -865,6 +867,7 @@ pub fn run_scenario(scen: Scenario) -> Vec<String> {
                 for c in codes {
                     b.push_str(&format!(" {}", c));
                 }
+                w.batch_seen.set(true);
                 w.log(order);
                 w.log(b);
             }
@@ -878,7 +881,11 @@ pub fn run_scenario(scen: Scenario) -> Vec<String> {
                 Cmd::Dispatch(t) => {
                     let off = UNIT * (*t as u32) + UNIT / 2;
                     calloop::verif::set_clock_offset(off);
+                    w.batch_seen.set(false);
                     let r = event_loop.dispatch(Some(Duration::ZERO), &mut ());
+                    if !w.batch_seen.get() {
+                        w.log("0".to_string()); // no poll happened: keep one ORDER line per dispatch command
+                    }
                     w.log(format!("6 {} {}", t, if r.is_ok() { 0 } else { 1 }));
                 }
                 Cmd::Stats => {
